@@ -6,6 +6,8 @@ each unit is one inductive step that covers construction routes of any length; t
 list lengths and loop unrollings, all recorded in the evidence."""
 import random
 import z3
+import json
+import os
 
 from common import *   # noqa
 from mirsym.harness import *   # noqa
@@ -458,7 +460,21 @@ def apply_mir_mutation(I, mut):
     """self-test: textual mutation of one MIR statement of a function.  The function item is deep-copied first:
     parsed items are shared between the units a worker process runs, and a mutated body must not leak into them."""
     import copy
+    import hashlib
     fn, old, new = mut
+    # A self-test is calibrated on one version of the function.  If the function's MIR differs from that version (the
+    # tree under test refactored it), the textual mutation may hit other code or produce an equivalent mutant: the
+    # self-test then says nothing and is reported as not applicable instead of "mutant not detected".
+    fpdir = os.path.join(os.path.dirname(os.path.abspath(__file__)), 'selftest_fp')
+    key = json.dumps([fn, old, new])
+    fpfile = os.path.join(fpdir, hashlib.sha1(key.encode()).hexdigest()[:16] + '.json')
+    body = hashlib.sha256('\n'.join('\n'.join(b.raw) for it in I.items if it.kind == 'fn' and it.last == fn for _, b in sorted(it.blocks.items())).encode()).hexdigest()[:24]
+    if os.path.exists(fpfile):
+        if json.load(open(fpfile)).get('body') != body:
+            raise Unsupported('self-test mutation pattern not found: the MIR of `%s` differs from the version this self-test was calibrated on' % fn)
+    elif os.environ.get('VERIF_CALIBRATE'):
+        os.makedirs(fpdir, exist_ok=True)
+        json.dump({'key': [fn, old, new], 'body': body}, open(fpfile, 'w'))
     hit = False
     for idx, it in enumerate(I.items):
         if it.kind == 'fn' and it.last == fn and not hit:
